@@ -770,6 +770,7 @@ struct W2
     double                          t0;
     bool                            stopped, harness_error;
     int                             id_b;      // initial allocator id of B (1 or 2)
+    std::FILE                      *dumpf;
 
     struct StateRec { Shape shape; History hist; };
     std::vector<StateRec> states;
@@ -777,7 +778,7 @@ struct W2
 
     Explorer (const Options& o, const std::set<std::uint64_t>& sk, std::uint64_t stop)
       : opt (o), skip (sk), seq (0), stop_at (stop), t0 (now_s ()), stopped (false),
-        harness_error (false), id_b (1) { }
+        harness_error (false), id_b (1), dumpf (0) { }
 
     TrialResult run_trial (const History& h, const Op& op, const Shape *want, int fkind = -1)
     {
@@ -830,8 +831,12 @@ struct W2
         for (int k = 1; k <= nk; ++k)
           tr.kinds[k] = fault_ctl ().kinds[k];
         {
-          std::string rec = "K" + itos (pre.key ()) + "|" + op_to_token (op) + "|X" + exc_name (tr.exc)
-                          + "|k" + itos (tr.post.key ()) + "|a" + itos (out.cx.n_alloc) + ",d" + itos (out.cx.n_dealloc);
+          Op plain = op; plain.f1 = 0; plain.f2 = 0;
+          std::string rec = "K" + itos (pre.key ()) + "|" + op_to_token (plain) + "|X" + exc_name (tr.exc)
+                          + "|k" + itos (tr.post.key ()) + "|a" + itos (out.cx.n_alloc) + ",d" + itos (out.cx.n_dealloc)
+                          + "|A" + ints_to_string (values_of (*w.a)) + "|B" + ints_to_string (values_of (*w.b));
+          if (out.cx.c_built)
+            rec += "|C" + itos (out.cx.c_size) + "," + itos (out.cx.c_cap) + ",#" + itos (out.cx.c_id) + ints_to_string (out.cx.c_values);
           tr.record = rec;
         }
 
@@ -898,7 +903,17 @@ struct W2
       long vals[5] = { pre.key (), op.kind * 4 + op.p, tr.exc, tr.post.key (), op.f1 ? 1 : 0 };
       h = fnv1a (h, vals, sizeof vals);
       st.outcomes.insert (h);
-      st.digest = fnv_str (st.digest, tr.record);
+      st.info_digest = fnv_str (st.info_digest, tr.record + "|f" + itos (op.f1) + "," + itos (op.f2));
+    }
+
+    // gating record: fault-free edges and allocation-failure edges only (the number of element
+    // operations, hence of element fault points, is not promised to be standard-independent)
+    void gate (const TrialResult& tr, const std::string& label)
+    {
+      std::string line = tr.record + "|F" + label;
+      st.digest = fnv_str (st.digest, line);
+      if (dumpf)
+        std::fprintf (dumpf, "%s\n", line.c_str ());
     }
 
     void explore_from (int idb)
@@ -927,6 +942,7 @@ struct W2
           if (r0.skipped) continue;
           ++st.transitions;
           note (cur.shape, op, r0);
+          gate (r0, "0");
           if (st.transitions % 9973 == 1 && sink.samples.size () < 12)
             sink.samples.push_back ("ids " + std::string (idb == 1 ? "equal" : "unequal") + "; A(size " + itos (cur.shape.sa) + ",cap "
               + itos (cur.shape.ca) + ",#" + itos (cur.shape.ia) + ") B(size " + itos (cur.shape.sb) + ",cap " + itos (cur.shape.cb)
@@ -937,9 +953,12 @@ struct W2
           if (! ops[oi].inject || opt.faults < 1 || r0.violated)
             continue;
           const int F = r0.fault_points < 255 ? r0.fault_points : 255;
+          int alloc_idx = 0;
           for (int k = 1; k <= F && ! time_up (); ++k)
           {
-            if (opt.fault_kinds == 1 && r0.kinds[k] != FK_ALLOC)
+            const bool is_alloc = (r0.kinds[k] == FK_ALLOC);
+            if (is_alloc) ++alloc_idx;
+            if (opt.fault_kinds == 1 && ! is_alloc)
               continue;
             Op f = op; f.f1 = k;
             TrialResult r1 = run_trial (cur.hist, f, &cur.shape, r0.kinds[k]);
@@ -947,6 +966,8 @@ struct W2
             if (r1.skipped) continue;
             ++st.fault_trials;
             note (cur.shape, f, r1);
+            if (is_alloc)
+              gate (r1, "A" + itos (alloc_idx));
             successor (cur, f, r1);
             if (opt.faults < 2 || r1.violated)
               continue;
@@ -971,11 +992,15 @@ struct W2
 
     void explore ()
     {
+      if (! opt.dump.empty ())
+        dumpf = std::fopen (opt.dump.c_str (), "w");
       st.exhaustive = true;
       explore_from (1);
       if (! AT::is_std && ! harness_error)
         explore_from (2);
       st.wall = now_s () - t0;
+      if (dumpf)
+        std::fclose (dumpf);
     }
   };
 
